@@ -88,6 +88,16 @@ def reshape(req):
             inv_data.update(raw_inventory)
             inv_object = inventory.make_inventory_object(
                 resource_provider, res_class, **inv_data)
+            # An inventory is subject to the same rules whichever way it is
+            # written: reserved may not exceed total.
+            try:
+                inventory._validate_inventory_capacity(
+                    want_version, inv_object)
+            except exception.InvalidInventoryCapacity as exc:
+                raise webob.exc.HTTPBadRequest(
+                    'Unable to update inventory for resource provider '
+                    '%(rp_uuid)s: %(error)s' % {'rp_uuid': rp_uuid,
+                                                'error': exc})
             inv_list.append(inv_object)
         inventory_by_rp[resource_provider] = inv_list
 
